@@ -23,7 +23,8 @@ IsNil(v) == v[1] = "nil"
 IsNum(v) == v[1] = "n"
 IsStr(v) == v[1] = "s"
 IsTab(v) == v[1] = "t"
-IsFn(v) == v[1] = "f" \/ v[1] = "bi"
+IsFn(v) == v[1] = "f" \/ v[1] = "bi" \/ v[1] = "wf"
+IsOpaqueStr(v) == v[1] \in {"rtmsg", "anystr", "fault"}    \* a string whose text is implementation-defined
 Truthy(v) == ~(v[1] = "nil" \/ (v[1] = "b" /\ v[2] = FALSE))
 
 Lim == 1073741824          \* 2^30
@@ -46,6 +47,9 @@ TypeName(v) ==
       [] v[1] = "n" -> "number"
       [] v[1] = "s" -> "string"
       [] v[1] = "rtmsg" -> "string"
+      [] v[1] = "anystr" -> "string"
+      [] v[1] = "fault" -> "string"
+      [] v[1] = "wf" -> "function"
       [] v[1] = "t" -> "table"
       [] v[1] = "f" -> "function"
       [] v[1] = "bi" -> "function"
@@ -113,14 +117,14 @@ StrToNum(b) ==
 ToNum(v) ==
     CASE v[1] = "n" -> v
       [] v[1] = "s" -> StrToNum(v[2])
-      [] v[1] = "rtmsg" -> <<"un">>
+      [] v[1] \in {"rtmsg", "anystr", "fault"} -> <<"un">>
       [] OTHER -> <<"no">>
 
 (* tostring-style coercion of a concat operand: <<"s",b>>, <<"no">>, <<"un">> *)
 ToStr(v) ==
     CASE v[1] = "s" -> v
       [] v[1] = "n" -> <<"s", IntToBytes(v[2])>>
-      [] v[1] = "rtmsg" -> <<"un">>
+      [] v[1] \in {"rtmsg", "anystr", "fault"} -> <<"un">>
       [] OTHER -> <<"no">>
 
 (* lexicographic byte order (strcoll in the C locale) *)
